@@ -128,7 +128,11 @@ func check(c *enum.Ctx, k kase) (nontrivial bool) {
 				if k.Via == "clone" {
 					p = p.Copy().(*quality.Phred)
 				}
-				p.SetEncoding(e)
+				if k.Via == "field" {
+					p.Encode = e // the exported field assigned directly, as a struct literal would set it
+				} else {
+					p.SetEncoding(e)
+				}
 				enc, dec, pe, reported = p.QEncode(3), p.QDecode(byte(b)), p.EAt(3), p.Encoding()
 				if k.Via == "clone" {
 					// the copy is written on and reversed: the original keeps its scores
@@ -161,7 +165,11 @@ func check(c *enum.Ctx, k kase) (nontrivial bool) {
 			if k.Via == "clone" {
 				q = q.Clone().(*linear.QSeq)
 			}
-			q.SetEncoding(e)
+			if k.Via == "field" {
+				q.Encode = e
+			} else {
+				q.SetEncoding(e)
+			}
 			if k.Via == "zero" {
 				_ = fmt.Sprintf("%.0q", q) // the header alone: no quality is encoded
 			}
@@ -176,7 +184,7 @@ func check(c *enum.Ctx, k kase) (nontrivial bool) {
 		}) {
 			return true
 		}
-		hist := fmt.Sprintf("built as %s, encoded, %sSetEncoding(%s)", encNames[e2], map[string]string{"": "", "clone": "copied, ", "empty": "(rendered while empty, then filled) ", "zero": "(then rendered with %.0q) "}[k.Via], encNames[e])
+		hist := fmt.Sprintf("built as %s, encoded, %sSetEncoding(%s)", encNames[e2], map[string]string{"": "", "clone": "copied, ", "empty": "(rendered while empty, then filled) ", "zero": "(then rendered with %.0q) ", "field": "(Encode field assigned instead of) "}[k.Via], encNames[e])
 		if reported != e {
 			fail(k.Kind+"/Encoding", "%s: Encoding() = %s", hist, encNames[reported])
 		}
@@ -228,7 +236,11 @@ func check(c *enum.Ctx, k kase) (nontrivial bool) {
 			if k.Via == "clone" {
 				p = p.Copy().(*quality.Solexa)
 			}
-			p.SetEncoding(alphabet.Solexa)
+			if k.Via == "field" {
+				p.Encode = alphabet.Solexa
+			} else {
+				p.SetEncoding(alphabet.Solexa)
+			}
 			enc, dec, pe = p.QEncode(3), p.QDecode(byte(b)), p.EAt(3)
 			origEnc = orig.QEncode(3)
 			if k.Via == "clone" {
@@ -241,7 +253,7 @@ func check(c *enum.Ctx, k kase) (nontrivial bool) {
 		}) {
 			return true
 		}
-		hist := fmt.Sprintf("quality.Solexa built as %s, encoded, %sSetEncoding(Solexa)", encNames[alphabet.Encoding(k.Enc2)], map[string]string{"": "", "clone": "copied, "}[k.Via])
+		hist := fmt.Sprintf("quality.Solexa built as %s, encoded, %sSetEncoding(Solexa)", encNames[alphabet.Encoding(k.Enc2)], map[string]string{"": "", "clone": "copied, ", "field": "(Encode field assigned instead of) "}[k.Via])
 		if int(enc) != b {
 			fail("solexa-container/QEncode", "%s: QEncode of score %d = %d, want %d", hist, k.V, enc, b)
 		}
@@ -419,7 +431,7 @@ func check(c *enum.Ctx, k kase) (nontrivial bool) {
 }
 
 func run(c *enum.Ctx) {
-	c.Rule("complete enumeration: kind x encoding x all 256 values (x 5 offsets for the probability grids); the same encode/decode/probability laws through quality.Phred, quality.Solexa and linear.QSeq (QEncode, QDecode, EAt, SetE, %q) after every two-step encoding history (built with encoding A, encoded once, optionally copied, SetEncoding(B)) x all values; each kind of law also as the first use of the package in a fresh process (12 cold-start helper processes), and with eight goroutines making the first uses at once (6 processes, free-running); a case is non-trivial when the oracle applies (value inside the printable/representable range the statement names); distinct by (kind,encoding,value,offset)")
+	c.Rule("complete enumeration: kind x encoding x all 256 values (x 5 offsets for the probability grids); the same encode/decode/probability laws through quality.Phred, quality.Solexa and linear.QSeq (QEncode, QDecode, EAt, SetE, %q) after every two-step encoding history (built with encoding A, encoded once, optionally copied, SetEncoding(B) or the exported Encode field assigned B) x all values; each kind of law also as the first use of the package in a fresh process (12 cold-start helper processes), and with eight goroutines making the first uses at once (6 processes, free-running); a case is non-trivial when the oracle applies (value inside the printable/representable range the statement names); distinct by (kind,encoding,value,offset)")
 	c.Assume("printable range: bytes 33..126 (Illumina1_5: 'B'..126; Solexa: 59..126, i.e. scores from -5)", "sentinel scores 254/255 (Phred) and 127/-128 (Solexa) are excluded", "math.Pow/math.Log10 of this Go toolchain are the analytic reference (1e-12 relative tolerance)")
 	add := func(k kase) {
 		c.Doing(0, k)
@@ -494,7 +506,7 @@ func enumerate(add func(kase)) {
 		}
 		for _, e := range phredEnc {
 			for _, e2 := range append([]alphabet.Encoding{alphabet.Solexa}, phredEnc...) {
-				for _, via := range []string{"", "clone"} {
+				for _, via := range []string{"", "clone", "field"} {
 					add(kase{Kind: "phred-container", Enc: int(e), Enc2: int(e2), Via: via, V: v})
 					add(kase{Kind: "qseq-container", Enc: int(e), Enc2: int(e2), Via: via, V: v})
 				}
@@ -504,7 +516,7 @@ func enumerate(add func(kase)) {
 			}
 		}
 		for _, e2 := range []alphabet.Encoding{alphabet.Solexa, alphabet.Sanger, alphabet.Illumina1_3} {
-			for _, via := range []string{"", "clone"} {
+			for _, via := range []string{"", "clone", "field"} {
 				add(kase{Kind: "solexa-container", Enc2: int(e2), Via: via, V: v - 128})
 			}
 		}
